@@ -3,12 +3,12 @@
 #include "static.c"      // from $REPO/src (-I on the command line)
 #include "vf_common.h"
 
-static unsigned long long n_sizes = 0, n_good = 0, n_malloc = 0, n_slice = 0, n_div = 0, n_util = 0, n_addr = 0, n_pages = 0, n_slice_positions = 0, n_interior = 0, n_bins_addr = 0;
+static unsigned long long n_sizes = 0, n_good = 0, n_malloc = 0, n_slice = 0, n_div = 0, n_util = 0, n_addr = 0, n_pages = 0, n_slice_positions = 0, n_interior = 0, n_bins_addr = 0, n_giant = 0, n_giant_skipped = 0;
 static int full = 0, padding = 0;
 
 static void body(FILE* f) {
-  fprintf(f, "\"arith\":{\"sizes\":%llu,\"good_size\":%llu,\"malloc_checked\":%llu,\"slice_counts\":%llu,\"divisions\":%llu,\"util_inputs\":%llu,\"address_recoveries\":%llu,\"pages\":%llu,\"distinct_slice_positions\":%llu,\"interior_offsets\":%llu,\"bins_with_real_pages\":%llu,\"full\":%d}",
-          n_sizes, n_good, n_malloc, n_slice, n_div, n_util, n_addr, n_pages, n_slice_positions, n_interior, n_bins_addr, full);
+  fprintf(f, "\"arith\":{\"sizes\":%llu,\"good_size\":%llu,\"malloc_checked\":%llu,\"slice_counts\":%llu,\"divisions\":%llu,\"util_inputs\":%llu,\"address_recoveries\":%llu,\"pages\":%llu,\"distinct_slice_positions\":%llu,\"interior_offsets\":%llu,\"bins_with_real_pages\":%llu,\"giant_blocks_checked\":%llu,\"giant_blocks_refused_by_the_os\":%llu,\"full\":%d}",
+          n_sizes, n_good, n_malloc, n_slice, n_div, n_util, n_addr, n_pages, n_slice_positions, n_interior, n_bins_addr, n_giant, n_giant_skipped, full);
 }
 #define FAIL(...) vf_trip("arith", "C16", __VA_ARGS__)
 
@@ -213,6 +213,25 @@ static void check_addresses(void) {
     check_block_addresses(p, larges[i]);
     if (nh < 399000 && (i + (size_t)rep) % 3 == 0) hold[nh++] = p; else mi_free(p);
     if (nh < 399000) hold[nh++] = mi_malloc(1 + (size_t)vf_rng_below(&r, 900000));
+  }
+  // blocks of 4 GiB and more (address space only, never touched): the arithmetic must not be done in 32 bits
+  {
+    static const size_t giants[] = { ((size_t)4 << 30) - 12 * 1024 * 1024 + 1, ((size_t)4 << 30) + 3 * 1024 * 1024 + 5, ((size_t)4 << 30), ((size_t)6 << 30) + 777, ((size_t)8 << 30) + 64 * 1024 + 24, ((size_t)5 << 30) - 8 };
+    for (size_t i = 0; i < sizeof(giants) / sizeof(giants[0]); i++) {
+      void* p = mi_malloc(giants[i]); if (p == NULL) { n_giant_skipped++; continue; }      // the OS may refuse that much address space: not a verdict
+      check_block_addresses(p, giants[i]); n_giant++;
+      mi_free(p);
+      for (size_t a = 64 * 1024; a <= MI_BLOCK_ALIGNMENT_MAX; a *= 16) {
+        void* q = mi_malloc_aligned(giants[i], a); if (q == NULL) { n_giant_skipped++; continue; }
+        mi_page_t* page = _mi_ptr_page(q);
+        mi_block_t* b = _mi_page_ptr_unalign(page, q);
+        size_t bs = mi_page_block_size(page);
+        n_addr++; n_giant++;
+        if ((uint8_t*)b > (uint8_t*)q || (uint8_t*)q + giants[i] > (uint8_t*)b + bs || (uint8_t*)b != page->page_start) FAIL("aligned pointer %p (n=%zu, a=%zu) into a giant block resolves to block %p of size %zu (page start %p)", q, giants[i], a, (void*)b, bs, (void*)page->page_start);
+        if (mi_usable_size(q) < giants[i] || (uint8_t*)q + mi_usable_size(q) > (uint8_t*)b + bs) FAIL("mi_usable_size(%p) = %zu for an aligned giant block of %zu bytes (block %p, size %zu)", q, mi_usable_size(q), giants[i], (void*)b, bs);
+        mi_free(q);
+      }
+    }
   }
   // aligned allocations: the pointer handed out is interior to a block; it must resolve to that block
   for (int i = 0; i < (full ? 20000 : 3000); i++) {
